@@ -136,6 +136,8 @@ def attribute(ev, cl, tags, trace):
         return {"C11"} | ({"C06"} if cl == "noshare" else set())
     if op in ("Reload", "Immutable"):
         return {"C04"} | ({"C06"} if cl in ("noshare", "frame") else set())
+    if op == "EqNear":
+        return {"C06"} if cl in ("frame", "noshare") else {"C09"}
     if op == "Eq":
         # (a pickle clone that does not compare equal to its original is C11's claim as well)
         return {"C06"} if cl in ("frame", "noshare") else {"C09"} | (lineage & {"C11"})
